@@ -481,6 +481,32 @@ def _identity_tests(tree):
     return out
 
 
+def rule_P3_load(ctx):
+    """In file-based mode the per-task files are re-written by every run
+    under the same names: what `_load` returns for a file name has to be
+    read from the file in THAT call (a remembered copy is the result of an
+    earlier run)."""
+    mod = ctx.repo.mod(SIMS)
+    ld = mod.method('Simulation', '_load')
+    rets = [r for r in au.walk_local(ld) if isinstance(r, ast.Return)]
+    ctx.anchor(rets, 'returns of Simulation._load')
+    reads = [x for x in ast.walk(ld) if isinstance(x, ast.Attribute) and
+             isinstance(x.value, ast.Name) and x.value.id == 'self' and
+             x.attr != 'file_dir']
+    stores = [x for x in reads if isinstance(x.ctx, ast.Store)]
+    subs = [x for x in ast.walk(ld) if isinstance(x, ast.Subscript) and any(
+        y in reads for y in ast.walk(x.value))]
+    ok = not stores and not subs and any(
+        'io.load' in ast.unparse(v_) for r in rets if r.value is not None
+        for v_ in au.values_of(r.value, [ld]))
+    ctx.check('C11.P3.names', 'Simulation._load reads the file on every '
+              'call', ok, '_load keeps / looks up loaded content on the '
+              'simulation: the output files of the tasks are re-written '
+              'under the same names by every jvec / jtvec / gradient, so a '
+              'remembered copy is the result of an earlier run (file-based '
+              'and in-memory results differ)', ctx.where(mod, ld))
+
+
 def rule_P4_identity(ctx):
     """Object identity is the one thing that differs between the modes:
     fields, grids and models that come back from a worker process or a file
@@ -493,7 +519,8 @@ def rule_P4_identity(ctx):
     ctx.anchor(len(_identity_tests(probe)) == 1, 'identity-test matcher')
     n = 0
     for rel, scope in ((SIMS, 'Simulation'), (MP, None),
-                       ('emg3d/fields.py', None), ('emg3d/solver.py', None)):
+                       ('emg3d/fields.py', None), ('emg3d/solver.py', None),
+                       ('emg3d/models.py', None), ('emg3d/maps.py', None)):
         mod = ctx.repo.mod(rel)
         tree = mod.cls(scope) if scope else mod.tree
         for t in _identity_tests(tree):
@@ -526,4 +553,5 @@ def run(ctx):
     rule_P4(ctx)
     rule_P4_inputs(ctx)
     rule_P4_identity(ctx)
+    rule_P3_load(ctx)
     rule_P3_injective(ctx)
